@@ -47,11 +47,11 @@ m = {
  },
  "engines": [
   {"name": "mdsim", "path": "/verif/sim", "serves_properties": ["C09", "C18", "C20"],
-   "kind_free_text": "deterministic simulation: seeded scenarios executed in fresh interpreters ('worlds') with simulator-owned hash seed, directory enumeration order, raw file/stdio layers (short reads/writes, EINTR, EIO/ENOSPC/EPIPE, producer crash), caller-thread schedule (baton scheduler on settrace line events) and op history; cross-world equality and reference-model oracles; ddmin + 3x fresh-process confirmation; JSON replay files"},
+   "kind_free_text": "deterministic simulation: seeded scenarios executed in fresh interpreters ('worlds') with simulator-owned hash seed, directory enumeration order, clock and randomness, locale / -O / stdout encoding, raw file and stdio layers incl. descriptors 0/1 (short reads/writes, EINTR, EIO/ENOSPC/EPIPE, producer crash, FIFO as FILE), a kernel that schedules caller threads AND library-started threads on settrace line events (random walk, site-weighted, PCT, run-to-completion, explicit replay; SimLock-based threading, deterministic executor, simulated timeouts), scan histories incl. aborted scans, fresh buffers and in-place configuration changes; cross-world equality and reference-model oracles; deterministic step-limit hang guard; ddmin + mechanism naming + 3x fresh-process confirmation; JSON replay files"},
  ],
  "checks": [
   chk("C09",
-      "seeded search over hash seeds x directory enumeration orders x caller-thread schedules x scan histories x interpreter environments; every result with the same (configuration, input, depth[, CLI mode]) key must be byte-identical in canonical form across all of them; failures are minimised, mechanism-named (hashseed / enum-order / schedule / history / env / unseeded) and replayed 3x before being reported",
+      "seeded search over hash seeds x directory enumeration orders x thread schedules (caller threads through scan()/scan_node() and any threads the library itself starts) x scan histories (re-used/fresh scanners, same input at several depth limits, scans aborted at an arbitrary line, fresh buffers of equal length, keyword files replaced in place, pre-imported decoder modules, caller-mutated results, in-process CLI runs) x interpreter environments (locale, -O, stdout encoding, simulated clock and randomness, keyword-directory path form); every result with the same (configuration, input, depth[, CLI mode]) key must be byte-identical in canonical form across all of them and must not change after it was returned; failures are minimised, mechanism-named (hashseed / enum-order / schedule-or-abort / history / env / io / clock-or-random / unseeded) and replayed 3x before being reported",
       "samples, does not enumerate; C-extension calls are atomic steps; address-order nondeterminism can only be detected as unstable replay, not seeded; trusted base: CPython, the harness's canonical form (reads the six node fields only)",
       "deterministic simulation: multi-world (hash seed, scandir order, env) + baton thread scheduler + history ops, cross-world equality oracle",
       "5.1"),
